@@ -27,6 +27,8 @@ def branch_of(p):
 
 
 def run(prog, tier):
+    from rules.common import register_error_functions
+    register_error_functions(prog)
     chk = Check('C06', tier, 'other',
                 'Each of the 21 _CP functions (post-preprocessing, so the token-pasted names are resolved) and the three '
                 'refractive-index entry points is enumerated path by path; one symbolic loop iteration gives the '
